@@ -56,6 +56,12 @@ def handleLine (line : String) : String :=
       let lk := match s.lock with | none => "L-" | some i => s!"L{i}"
       s!"{wire} {showResults ps.length s.finished} {lk} {if allDone ps s then "D1" else "D0"}"
     | _, _, _ => "bad-op"
+  | ["T", cbj, cw, sched] =>
+    -- thread-pool timeout protocol: `T <closeBeforeJoin 0|1> <closeWakes 0|1> <sched: c|w letters>` -> `<pc> <lock 0|1> <closed 0|1>`
+    let o : PoolTimeout.TOpts := ⟨cbj == "1", cw == "1"⟩
+    let s := PoolTimeout.trun o (sched.toList.map (· == 'c'))
+    let pc := match s.pc with | .waiting => "waiting" | .first => "first" | .second => "second" | .raised => "raised"
+    s!"{pc} {if s.lock then 1 else 0} {if s.closed then 1 else 0}"
   | _ => "bad-op"
 
 partial def loop (h : IO.FS.Stream) : IO Unit := do
